@@ -39,6 +39,9 @@ theorem enqueue_test_iff (a r pna u ka : Bool) :
 
 /-- `async_updates` and `async_updates_complete` iterate over `self.listeners.copy()` -/
 theorem updates_iterates_copy_eq : Gen.Cache.updates_iterates_copy = true := rfl
+/-- the purges hand `async_updates` a materialised list, not a generator (seeded defect C05-w5-seed1 breaks exactly this) -/
+theorem purge_updates_is_list_eq : Gen.Cache.purge_updates_is_list = true := rfl
+theorem add_listener_purge_updates_is_list_eq : Gen.Cache.add_listener_purge_updates_is_list = true := rfl
 theorem complete_iterates_copy_eq : Gen.Cache.complete_iterates_copy = true := rfl
 
 /-- D18 repair: `async_remove_listener` catches the `KeyError` of `set.remove` -/
